@@ -54,6 +54,7 @@ def jobs(tier, seed):
     for ch in C.chunks(pairs, 8):
         out.append({'fn': 'cmp_units', 'cfg': {'pairs': ch}})
     out.append({'fn': 'cmp_units_user', 'cfg': {}})
+    out.append({'fn': 'cmp_with_converter', 'cfg': {}})
     # unit pairs with a non-decimal ratio under the faithful model of result kinds (Decimal when the value is a finite
     # decimal, Fraction otherwise; DESIGN 2.2): code that dispatches on the kind of a converted amount
     for pr in (['h', 'min'], ['yd', 'ft'], ['lb', 'kg']):
@@ -181,6 +182,33 @@ def cmp_after_allocate(E, cfg):
     refs = [z.amount * C.scale(z.unit) for z in lst]
     E.check(all(refs[i] <= refs[i + 1] for i in range(len(refs) - 1)), 'portions-sorted-by-reference-value',
             key='cmp-portion:sorted', info=[recv[0], amt, ratios])
+
+
+def cmp_with_converter(E, cfg):
+    """a converter registered on a type with reference unit (rounded table factors, a function) does not take part in
+    comparisons between units of the type"""
+    from decimalfp import Decimal
+    from quantity import Quantity, TableConverter
+    import quantity.predefined as pre
+    kind = E.choice('converter', ['table', 'function'])
+    if kind == 'table':
+        conv = TableConverter({(pre.POUND, pre.KILOGRAM): (Decimal('0.4536'), 0), (pre.KILOGRAM, pre.GRAM): (Decimal(999), 0)})
+    else:
+        def conv(qty, to_unit):
+            return qty.amount * Decimal('1.5')
+    pre.Mass.register_converter(conv)
+    us, vs = E.choice('pair', [('kg', 'lb'), ('lb', 'kg'), ('kg', 'g'), ('g', 'lb'), ('oz', 'kg')])
+    u, v = C.unit(us), C.unit(vs)
+    a = E.rational('a', 'dec')
+    b = E.rational('b', 'frac')
+    for tag in ('registered', 'removed'):
+        qa, qb = Quantity(a, u), Quantity(b, v)
+        ra, rb = a * C.scale(u), b * C.scale(v)
+        for name, op in OPS:
+            E.check(E.Iff(op(qa, qb), op(ra, rb)), 'cmp-%s-agrees-with-reference-with-converter' % name,
+                    key='cmp-with-converter:' + name, info=[kind, us, vs, tag])
+        if tag == 'registered':
+            pre.Mass.remove_converter(conv)
 
 
 def cmp_units_user(E, cfg):
